@@ -159,7 +159,9 @@ std::string vf_run(const Case &c, vf::Ctx &ctx) {
     { size_t h2 = bad.find('\n', bad.find('\n') + 1); int pad = c.corrupt / 8; std::string sp; for (int k = 0; k < pad; k++) sp += (k % 5 == 4) ? '\n' : ' '; if (h2 != std::string::npos) bad.insert(h2 + 1, sp + (pad ? "\n" : "")); }
     switch (c.corrupt % 8) {
       case 0: bad.replace(0, 9, "% RX OSC "); what = "a wrong first header line"; break;
-      case 1: { size_t p = bad.find("genapp"); bad.replace(p, 6, "otherapp"); what = "another application's name"; break; }
+      case 1: {   // also names that extend, shorten or differ in case from the loader's own (seed C12-13)
+        static const char *const other[] = {"otherapp", "genapp2", "genap", "xgenapp", "Genapp", "genapp-ng"};
+        size_t p = bad.find("genapp"); bad.replace(p, 6, other[(c.corrupt / 8) % 6]); what = "another application's name"; break; }
       case 2: bad += "\n$$ not a message\n"; what = "an unparsable line"; break;
       case 3: bad += "\n/no_such_port_anywhere 1\n"; what = "a line no port accepts"; break;
       case 4: { size_t p = bad.find("genapp v"); bad.erase(p + 7, 1); what = "an application version without the 'v'"; break; }
